@@ -28,7 +28,7 @@ rundemo clean; RC0=$?
 echo "demo on clean tree: rc=$RC0 ($(tail -1 ${SEED_WT:-/tmp/mutv}-demo/out.clean 2>/dev/null))"
 git -C $WT apply "$PATCH" || { echo "RESULT patch-does-not-apply"; exit 1; }
 if ! build; then echo "RESULT mutated-build-failed"; tail -5 $WT/_build.log; git -C $WT checkout -q -- .; exit 1; fi
-T=$(ctest --test-dir $WT/_build -j8 --timeout 900 2>&1 | grep -E "tests passed|tests failed" | tail -1)
+rm -rf ${SEED_WT:-/tmp/mutv}-occa_ctest_cache; T=$(OCCA_CACHE_DIR=${SEED_WT:-/tmp/mutv}-occa_ctest_cache ctest --test-dir $WT/_build -j8 --timeout 1800 2>&1 | grep -E "tests passed|tests failed" | tail -1)
 echo "tests with change: $T"
 rundemo mut; RC1=$?
 echo "demo on changed tree: rc=$RC1 ($(tail -1 ${SEED_WT:-/tmp/mutv}-demo/out.mut 2>/dev/null))"
